@@ -25,6 +25,12 @@ TAGS=verif
 [ -f $ZN_REPO/pkg/server/name_pipe_linux.go ] && TAGS=verif,znserver
 # the C20 op links pkg/server and needs both hook files
 if [ -f $ZN_REPO/pkg/server/name_pipe_linux.go ] && [ -f $ZN_REPO/pkg/server/verif_hooks.go ]; then TAGS=$TAGS,pmhooks; fi
-(cd $H && go build -tags $TAGS -o $B/znharness .)
+COVER=""
+if [ "${ZN_COVER:-0}" = "1" ]; then
+  # measurement only (tools/coverage.sh): a binary built with -cover writes no data when its main module says go < 1.20
+  sed -i 's/^go 1.18/go 1.21/' $H/go.mod
+  COVER="-cover -coverpkg=github.com/DemoHn/Zn/...,znharness"   # (the main package must be among them, or no data is written)
+fi
+(cd $H && go build $COVER -tags $TAGS -o $B/znharness .)
 # the same harness under the race detector (C16); cgo/gcc needed, skipped quietly when unavailable
 if [ "${ZN_RACE:-1}" = "1" ]; then (cd $H && go build -race -tags $TAGS -o $B/znharness-race . 2>/dev/null) || true; fi
